@@ -22,7 +22,7 @@ from .. import wire
 from ..models import streams as SM
 
 PROPERTY = "C24"
-ALPHABET = "lifecycle menu + advertise_alternative_service {origin, stream f / promised / unused, both} + received ALTSVC {stream 0 +-origin, stream f / aux / promised / unused +-origin}"
+ALPHABET = "lifecycle menu + advertise_alternative_service {origin, stream f / promised / unused, both, both with origin b'' , both with stream_id 0} + received ALTSVC {stream 0 +-origin, stream f / aux / promised / unused +-origin}"
 BOUNDS = {"quick": "depth 6 per role", "thorough": "depth 9 per role (or time budget, reported)"}
 FIELD = b'h2=":8443"; ma=60'
 
@@ -35,7 +35,7 @@ class Spec(L.Spec):
         self.name = "c24-%s-%s" % (role, tier)
         f, aux = self.sids
         p = self.promised
-        self.alt = ["l:altsvc:origin", "l:altsvc:%d" % f, "l:altsvc:%d" % p, "l:altsvc:7", "l:altsvc:both:%d" % f,
+        self.alt = ["l:altsvc:origin", "l:altsvc:%d" % f, "l:altsvc:%d" % p, "l:altsvc:7", "l:altsvc:both:%d" % f, "l:altsvc:both-empty-origin:%d" % f, "l:altsvc:both-stream0:0",
                     "rx:altsvc:0:origin", "rx:altsvc:0:none"]
         for sid in (f, aux, p, 7):
             self.alt += ["rx:altsvc:%d:none" % sid, "rx:altsvc:%d:origin" % sid]
@@ -64,9 +64,11 @@ class Spec(L.Spec):
             if parts[2] == "origin":
                 info.update(form="origin", sid=0)
                 o = h.api("advertise_alternative_service", FIELD, origin=b"alt.example")
-            elif parts[2] == "both":
+            elif parts[2].startswith("both"):
+                # an origin AND a stream are named - also when one of the two is a falsy value (b"", 0)
                 info.update(form="both", sid=int(parts[3]))
-                o = h.api("advertise_alternative_service", FIELD, origin=b"alt.example", stream_id=int(parts[3]))
+                o = h.api("advertise_alternative_service", FIELD, origin=(b"" if parts[2] == "both-empty-origin" else b"alt.example"),
+                          stream_id=int(parts[3]))
             else:
                 sid = int(parts[2])
                 s = m.get(sid)
